@@ -264,6 +264,40 @@ theorem canon_of_ascii (I : Idna) (t : Text) (h : asciiName t = true) : CanonNam
   · exact Or.inl h
   · exact Or.inr (fun p hp => ⟨p, asciiPart_good I p (h p hp)⟩)
 
+/-- **C25 clause 1 — full statement** ("every well-formed DNS message (any IDNA-canonical names, types, classes, TTLs and
+    record data bytes) encodes to bytes that decode to the same message"): every field in range, names canonical, record data
+    ARBITRARY (`WellFormed0`: no condition on the data). Not a theorem of the current code: `roundtrip_all_counterexample`
+    (finding F-C25b, and data holding a compression pointer in a name field, which no decoder can return unchanged).
+    What is proved is `roundtrip` = `roundtrip_partial`, under the additional guard `rdataPlain` on every record. -/
+def RoundtripAll (I : Idna) : Prop :=
+  ∀ m, WellFormed0 I m → ∃ b, pack I m = some b ∧ unpack I b = some m
+
+/-- `roundtrip` under its proper name: it is the PARTIAL form of `RoundtripAll` (guard: `WellFormed` = `WellFormed0` plus
+    `rdataPlain` for every record, excluding exactly data with a pointer in a name field and the class of F-C25b). -/
+theorem roundtrip_partial (I : Idna) (m : Msg) (h0 : WellFormed0 I m)
+    (hplain : ∀ r ∈ m.answers ++ m.authorities ++ m.additionals, rdataPlain r.type r.data = true) :
+    ∃ b, pack I m = some b ∧ unpack I b = some m :=
+  roundtrip I m (h0.plain hplain)
+
+/-- `RoundtripAll` fails on the witness of F-C25b (CNAME data `99 c0 0c`: in range, canonical names, but not `rdataPlain`) -/
+theorem roundtrip_all_counterexample : ¬ RoundtripAll noIdna := by
+  intro h
+  have hwf : WellFormed0 noIdna witnessF25b := by
+    have hn : CanonName noIdna [0x61, 0x62, 0x63, 0x64] := canon_of_ascii noIdna _ (by decide)
+    refine ⟨by decide, by decide, by decide, by decide, by decide, by decide, by decide, by decide, ?_, ?_, ?_, ?_⟩
+    · intro q hq
+      have : q = ⟨[0x61, 0x62, 0x63, 0x64], 5, 1⟩ := by simpa [witnessF25b] using hq
+      subst this; exact ⟨hn, by decide, by decide⟩
+    · intro r hr
+      have : r = ⟨[0x61, 0x62, 0x63, 0x64], 5, 1, 60, [0x99, 0xc0, 0x0c]⟩ := by simpa [witnessF25b] using hr
+      subst this; exact ⟨hn, by decide, by decide, by decide, by decide⟩
+    · intro r hr; cases hr
+    · intro r hr; cases hr
+  obtain ⟨b, hp, hu⟩ := h witnessF25b hwf
+  have hev := witnessF25b_eval
+  unfold witnessF25bOk at hev
+  simp [hp, hu] at hev
+
 /-- **C25 (round trip, ASCII names, outright).** For messages whose names consist of ASCII labels (the fast path that
     `str.encode("idna")`/`bytes.decode("idna")` take for them is transcribed in the model) the round trip holds for
     every instantiation of the idna parameter: nothing about the codec is assumed. Only names with non-ASCII or
